@@ -90,6 +90,14 @@ class IndexExpander(ReuseTransformer):
 
         return x._ufl_class_(x.value())
 
+    def variable(self, x):
+        """Apply to variable.
+
+        The expansion of the variable's expression depends on the current
+        component and index values, so it cannot be cached by label.
+        """
+        return self.visit(x.ufl_operands[0])
+
     def conditional(self, x):
         """Apply to conditional."""
         c, t, f = x.ufl_operands
